@@ -586,3 +586,6 @@ PROPS["C03"]["harness"] = [("RD", "C03"), ("BIG", "C03")]
 PROPS["C07"]["harness"] = list(PROPS["C07"]["harness"]) + [("BIG", "C07")]
 # timestamp parsing is one of the reading entry points of C06: its malformed-string stream is judged by the C18 driver
 PROPS["C06"]["harness"] = list(PROPS["C06"]["harness"]) + [("C18", "C18")]
+# ... and so are decoding VALID encodings of every schema shape (a panic on legal input is a panic) and files with blocks
+# above the reader's 1 MiB chunk: the RD and BIG streams, judged by the C03 / C07 drivers
+PROPS["C06"]["harness"] = list(PROPS["C06"]["harness"]) + [("RD", "C03"), ("BIG", "C07")]
